@@ -133,7 +133,7 @@ def _fault_cases():
             out.append({"kind": "fault", "factory": factory, "what": "connect", "exc": exc})
         for what in ("read-before-connect", "write-before-connect", "disconnect-before-connect", "close-raises", "wait-closed-raises", "factory-args"):
             out.append({"kind": "fault", "factory": factory, "what": what, "exc": "OSError"})
-        for exc in ("EIO", "ETIMEDOUT", "EHOSTUNREACH", "ECONNRESET", "EPIPE", "SerialException", "clean-eof"):
+        for exc in ("EIO", "ETIMEDOUT", "EHOSTUNREACH", "ECONNRESET", "EPIPE", "SerialException", "clean-eof", "EAGAIN", "EINTR", "ENOSPC", "EBADF", "ECONNABORTED", "ENETDOWN", "ENOTCONN", "ESHUTDOWN"):
             out.append({"kind": "fault", "factory": factory, "what": "link-lost", "exc": exc})
             out.append({"kind": "fault", "factory": factory, "what": "link-lost", "exc": exc, "skip_disconnect": True})
     return out
@@ -621,8 +621,7 @@ def _link_exc(name: str) -> BaseException | None:
 
         return serial.SerialException("device reports readiness to read but returned no data (device disconnected?)")
     code = getattr(errno, name)
-    cls = {"ECONNRESET": ConnectionResetError, "EPIPE": BrokenPipeError, "ETIMEDOUT": TimeoutError}.get(name, OSError)
-    return cls(code, os.strerror(code))
+    return OSError(code, os.strerror(code))  # (OSError picks the matching subclass: ConnectionResetError, BlockingIOError, TimeoutError...)
 
 
 def _make_exc(name: str) -> BaseException:
